@@ -19,6 +19,11 @@ pub mod c13;
 pub mod c14;
 pub mod c15;
 pub mod c16;
+pub mod c17;
+pub mod c18;
+pub mod c19;
+pub mod c20;
+pub mod cssref;
 
 use crate::run::Monitor;
 
@@ -40,5 +45,9 @@ pub fn all() -> Vec<&'static Monitor> {
         &c14::MONITOR,
         &c15::MONITOR,
         &c16::MONITOR,
+        &c17::MONITOR,
+        &c18::MONITOR,
+        &c19::MONITOR,
+        &c20::MONITOR,
     ]
 }
